@@ -233,9 +233,12 @@ class Normalizer:
         if self._return_chain(body) is not None:
             return "expr"
         rets = [x for b in body for x in ast.walk(b) if isinstance(x, ast.Return)]
-        if all(isinstance(b, (ast.Assign, ast.AugAssign, ast.Expr, ast.Return, ast.If, ast.For, ast.While)) for b in body):
+        if all(isinstance(b, (ast.Assign, ast.AugAssign, ast.Expr, ast.Return, ast.If, ast.For, ast.While, ast.Try, ast.With, ast.Raise)) for b in body):
+            # a single return as the last statement: the body can stand where the call stood (a raise inside it leaves
+            # the caller exactly as it left the helper)
             if not rets or (len(rets) == 1 and rets[0] is body[-1]):
                 return "stmt"
+        if all(isinstance(b, (ast.Assign, ast.AugAssign, ast.Expr, ast.Return, ast.If, ast.For, ast.While)) for b in body):
             if _tailify(body, "__probe") is not None:
                 return "stmt"
         if all(isinstance(b, (ast.Assign, ast.AugAssign, ast.Expr, ast.Return, ast.If, ast.For, ast.While, ast.Raise)) for b in body):
